@@ -10,9 +10,11 @@ from .ref import ssa as RS
 class Impl:
     """the real simulator for one (spec, safe) configuration; reused across traces"""
 
-    def __init__(self, spec, safe=False, model_cls=None):
+    def __init__(self, spec, safe=False, model_cls=None, prepare=None):
         self.spec = spec
         self.model = to_model(spec, cls=model_cls)
+        if prepare is not None:
+            prepare(self.model)
         self.iface = interface(self.model, safe)
         self.order = self.model.get_species_list()
         self.perm = [self.order.index(s) for s in spec['species']]
